@@ -115,7 +115,7 @@ class Run:
                 else:
                     meta["_lean_smt2"] = None
                 meta["path"] = "".join(str(int(d)) for d in ob.path)
-                k = "canary" if (canary or meta.get("canary")) else kind
+                k = "canary" if ((canary and ob.oid.startswith("thm/") and "/no-exception:" not in ob.oid) or meta.get("canary")) else kind
                 self.vcs.append(VC(ob.oid, text, meta, k, owner))
 
     def gen_contract(self, c):
